@@ -521,6 +521,17 @@ def clip(s, n=200):
     return s if len(s) <= n else s[:n] + "...(%d chars)" % len(s)
 
 
+def model_agrees(kind, rres, mres):
+    """R result line vs M result line of one call record.  A failing library call must be a failing model call; a
+    VSread that failed in the stream below it (short Hread) is not a statement about the Vdata layer."""
+    r, m = rres.strip(), mres.strip()
+    if m == "nomodel" or r == m:
+        return True
+    if r.split()[:1] == ["-1"]:
+        return kind == "vsread" or m.split()[:1] == ["-1"]
+    return False
+
+
 def run_model_calls(ctx, mcalls):
     """R-vs-M: feed the call records to the extracted model; returns list of (lineno, call, R result, M result)."""
     if not mcalls or not os.path.exists(os.path.join(vc.VERIF, "extract", "vsmodel_main.ml")):
@@ -616,7 +627,7 @@ def run(ctx):
         kinds[k] = kinds.get(k, 0) + 1
         if k in ("vswrite", "vsread") and len(re.findall(r" [rw]\d+", rres)) > 1:
             multi_chunk += 1
-        if rres.strip() != mres.strip() and mres.strip() != "nomodel":
+        if not model_agrees(k, rres, mres):
             bad += 1
             if bad <= 2:
                 # is it also a failing input of the property?  find the history this call belongs to
@@ -653,7 +664,7 @@ def replay(ctx, path):
         print("%s %-60s R: %-50s S: %s" % ("  " if ok else "!!", clip(l, 60), clip(R[i] or "<crash>", 50), clip(S[i], 50)))
     try:
         for ln, call, rres, mres in run_model_calls(ctx, mcalls):
-            if rres.strip() != mres.strip() and mres.strip() != "nomodel":
+            if not model_agrees(call.split()[0], rres, mres):
                 print("!! line %d %s\n     R: %s\n     M: %s" % (ln, clip(call, 150), clip(rres, 150), clip(mres, 150)))
     except vc.BuildError as e:
         print("model driver unavailable:", e)
